@@ -369,6 +369,8 @@ func (in *c17Inst) implString() string {
 	o.mu.RLock()
 	defer o.mu.RUnlock()
 	var sb strings.Builder
+	// fields of the manager this harness does not know (added by a later change) join the key as they are
+	sb.WriteString(seqmc.ExtraFields(o, "listenAddrs", "wch", "eventbus", "wg", "ctx", "ctxCancel", "stopNotify", "mu", "externalAddrs", "connObservedTWAddrs"))
 	lks := make([]string, 0, len(o.externalAddrs))
 	for lk := range o.externalAddrs {
 		lks = append(lks, lk)
